@@ -10,6 +10,8 @@ Decided (structural):
    bounds, timesfd bounds w by the four corner products and narrows an operand by quotients only
    when no operand can be negative and the divisor cannot be zero;
  * domains hold no duplicate values (representation invariant, decided under C18).
+ (round 5, shared) exact set algebra (C18 tables); order propagator cut-offs; Conj builders incl. from_iter
+   (compound fields are labelled by the conjunction it builds); no FiniteDomain variant built outside fd.rs.
 """
 import fdrules
 import streams
@@ -116,3 +118,10 @@ def run(ctx, fb, cfg):
     import C18
 
     C18.check_sparse_sites(ctx, lib, R + "K3.no-duplicate-values")
+    # no value is lost by a narrowing: the set algebra the propagators call is exact in both representations
+    C18.check_algebra_for_propagators(ctx, lib, R)
+    # the fields of a compound answer term are labelled by the conjunction Conj::from_iter builds from them:
+    # a field dropped by the builder is labelled only by the committed-choice pass (one value instead of all)
+    import builders
+
+    builders.check_all(ctx, lib, R + "K6.builders", only=("Conj",))
